@@ -43,6 +43,16 @@ func init() {
 	mutant(&Mutant{Name: "c08-exponent-guard-reduced", Property: "C08", File: "common.go",
 		Old: "if origExp < 0 && (normExp < MinInt-origExp || normExp-n < MinInt-origExp) || 0 < origExp && (MaxInt-origExp < normExp || MaxInt-origExp < normExp-n) {", New: "if origExp < 0 && normExp < MinInt-origExp || 0 < origExp && MaxInt-origExp < normExp {",
 		Rule: "R08.6", Construct: "overflow guard"})
+	mutant(&Mutant{Name: "c08-rounding-without-exponent-guard", Property: "C08", File: "common.go",
+		Old: "\t\t\tif origExp < MinInt+len(num) || MaxInt-len(num) < origExp {\n\t\t\t\treturn num // exponent may overflow while rounding, and num is rounded in-place\n\t\t\t}\n", New: "",
+		Rule: "R08.7", Construct: "exponent moved"})
+	mutant(&Mutant{Name: "c08-decimal-rounds-on-the-dot", Property: "C08", File: "common.go",
+		Old: "if 0 < prec && dot <= start+prec {", New: "if 0 < prec && dot <= start+prec+1 {",
+		Rule: "R08.8", Construct: "Decimal/rounding byte"})
+	mutant(&Mutant{Name: "c08-decimal-stale-first-digit", Property: "C08", File: "common.go",
+		Old: "\t\tprecEnd := start + prec + 1 // include dot\n\t\tif dot == start {           // for numbers like .012\n\t\t\tdigit := start + 1\n", New: "\t\tprecEnd := start + prec + 1 // include dot\n\t\tdigit := start + 1\n\t\tif dot == start {           // for numbers like .012\n",
+		Old2: "\t\t\tif inc {\n\t\t\t\tif dot == start && end == start+1 {", New2: "\t\t\tif inc {\n\t\t\t\tif dot == start && end == digit {",
+		Rule: "R08.9", Construct: "Decimal/scan cursor"})
 	mutant(&Mutant{Name: "c08-number-appends", Property: "C08", File: "common.go",
 		Old: "\t\treturn num // exponent overflow\n", New: "\t\treturn append(num[:start], '0') // exponent overflow\n",
 		Rule: "R08.2", Construct: "Number"})
@@ -60,6 +70,9 @@ func runC08(c *Ctx) {
 	c.r084(pk)
 	c.r085(pk)
 	c.r086(pk)
+	c.r087(pk)
+	c.r088(pk)
+	c.r089(pk)
 	for _, name := range []string{"Decimal", "Number"} {
 		fd := c.fn(r2, pk, name)
 		if fd == nil {
@@ -647,4 +660,205 @@ func nineGuard(b *ssa.BasicBlock, la *ssa.IndexAddr) bool {
 		}
 	}
 	return false
+}
+
+// parsedInts returns the int variables of fd that receive a value parsed from the input's digits
+// (`Y = int(v)` with v bound to the result of a Parse* call, or `Y = Y*10 + digit`).
+func parsedInts(info *types.Info, fd *ast.FuncDecl) map[types.Object]bool {
+	out := map[types.Object]bool{}
+	fromParse := map[types.Object]bool{}
+	ast.Inspect(fd.Body, func(q ast.Node) bool {
+		if a, ok := q.(*ast.AssignStmt); ok && len(a.Rhs) == 1 {
+			if pc, isCall := ast.Unparen(a.Rhs[0]).(*ast.CallExpr); isCall && strings.Contains(calleeName(info, pc), "Parse") {
+				for _, l := range a.Lhs {
+					if lid, ok := l.(*ast.Ident); ok {
+						if o := info.ObjectOf(lid); o != nil {
+							fromParse[o] = true
+						}
+					}
+				}
+			}
+		}
+		return true
+	})
+	ast.Inspect(fd.Body, func(q ast.Node) bool {
+		a, ok := q.(*ast.AssignStmt)
+		if !ok || len(a.Rhs) != 1 || len(a.Lhs) != 1 {
+			return true
+		}
+		lid, ok := a.Lhs[0].(*ast.Ident)
+		if !ok {
+			return true
+		}
+		o := info.ObjectOf(lid)
+		if o == nil || !isIntType(o.Type()) {
+			return true
+		}
+		if strings.Contains(nospace(str(a.Rhs[0])), lid.Name+"*10") {
+			out[o] = true
+		}
+		if conv, isC := ast.Unparen(a.Rhs[0]).(*ast.CallExpr); isC && len(conv.Args) == 1 {
+			if vid, isId := ast.Unparen(conv.Args[0]).(*ast.Ident); isId && fromParse[info.ObjectOf(vid)] {
+				out[o] = true
+			}
+		}
+		return true
+	})
+	return out
+}
+
+// R08.7: the parsed exponent is moved, and digits are rewritten in place, only when the exponent is
+// known to be away from the limits of int.
+func (c *Ctx) r087(pk *packages.Package) {
+	const rule = "R08.7"
+	c.R.Rule(rule, "minify.Number holds the exponent of the input in an int (any value of the int range is accepted by the parser). (a) Every statement that moves that variable (`origExp += dot - precEnd`, `origExp++`) lies behind a guard — a dominating condition, or an earlier `if … { return … }` of an enclosing block — that compares the variable against MinInt / MaxInt; without it `9.99e9223372036854775807` with precision 1 wraps to `1e-9223372036854775808`. (b) The function gives up by returning its argument unchanged (`return num`); an in-place write from which such a return is still reachable lies behind the same kind of guard, otherwise the caller gets the original length with half-rounded digits (`1.96e9223372036854775807`, precision 2 → `2.96e…`)")
+	info := pk.TypesInfo
+	fd := c.fn(rule, pk, "Number")
+	if fd == nil {
+		return
+	}
+	g := c.graph(pk, fd)
+	exps := parsedInts(info, fd)
+	if len(exps) == 0 {
+		c.R.Unres(rule, "minify.Number/parsed exponent", c.pos(fd), "no int variable receives a parsed value")
+		return
+	}
+	var param types.Object
+	if len(fd.Type.Params.List) > 0 && len(fd.Type.Params.List[0].Names) > 0 {
+		param = info.Defs[fd.Type.Params.List[0].Names[0]]
+	}
+	mentions := func(e ast.Expr) (lim, ex bool) {
+		ast.Inspect(e, func(q ast.Node) bool {
+			if id, ok := q.(*ast.Ident); ok {
+				if id.Name == "MinInt" || id.Name == "MaxInt" {
+					lim = true
+				}
+				if exps[info.Uses[id]] {
+					ex = true
+				}
+			}
+			return true
+		})
+		return
+	}
+	guarded := func(y *flow.Node) bool {
+		for _, f := range g.DomFacts(y) {
+			if f.Test.Kind == flow.KCond {
+				if l, e := mentions(f.Test.Expr); l && e {
+					return true
+				}
+			}
+		}
+		var cur ast.Node = y.Ast()
+		for cur != nil && cur != ast.Node(fd) {
+			par := c.P.Parent(cur)
+			if blk, ok := par.(*ast.BlockStmt); ok {
+				for _, st := range blk.List {
+					if st.Pos() >= cur.Pos() {
+						break
+					}
+					if ifs, isIf := st.(*ast.IfStmt); isIf && ifs.Else == nil && len(ifs.Body.List) > 0 {
+						if _, isRet := ifs.Body.List[len(ifs.Body.List)-1].(*ast.ReturnStmt); isRet {
+							if l, e := mentions(ifs.Cond); l && e {
+								return true
+							}
+						}
+					}
+				}
+			}
+			cur = par
+		}
+		return false
+	}
+	isGiveUp := func(n *flow.Node) bool {
+		rs, ok := n.Stmt.(*ast.ReturnStmt)
+		if !ok || n.Kind != flow.KStmt || len(rs.Results) != 1 {
+			return false
+		}
+		id, ok := ast.Unparen(rs.Results[0]).(*ast.Ident)
+		return ok && param != nil && info.Uses[id] == param
+	}
+	nMove, nWrite := 0, 0
+	for _, y := range g.Nodes {
+		if y.Kind != flow.KStmt {
+			continue
+		}
+		// (a) moves of the exponent
+		var target ast.Expr
+		switch s := y.Stmt.(type) {
+		case *ast.IncDecStmt:
+			target = s.X
+		case *ast.AssignStmt:
+			if len(s.Lhs) == 1 && (s.Tok == token.ADD_ASSIGN || s.Tok == token.SUB_ASSIGN) {
+				target = s.Lhs[0]
+			} else if len(s.Lhs) == 1 && s.Tok == token.ASSIGN {
+				if be, ok := ast.Unparen(s.Rhs[0]).(*ast.BinaryExpr); ok && (be.Op == token.ADD || be.Op == token.SUB) && str(be.X) == str(s.Lhs[0]) {
+					target = s.Lhs[0]
+				}
+			}
+		}
+		if id, ok := target.(*ast.Ident); ok && exps[info.Uses[id]] {
+			nMove++
+			c.R.Check(guarded(y), rule, fmt.Sprintf("minify.Number/exponent moved %s#%d", stmtText(y.Stmt), nMove), c.pos(y.Stmt), "behind a MinInt / MaxInt guard",
+				"the parsed exponent is changed without a preceding comparison against MinInt / MaxInt: an exponent at the limit wraps around and the result denotes a different number")
+			continue
+		}
+		// (b) in-place writes
+		isWrite := false
+		switch s := y.Stmt.(type) {
+		case *ast.IncDecStmt:
+			if ix, ok := s.X.(*ast.IndexExpr); ok {
+				if id, ok := ix.X.(*ast.Ident); ok && info.Uses[id] == param {
+					isWrite = true
+				}
+			}
+		case *ast.AssignStmt:
+			for _, l := range s.Lhs {
+				if ix, ok := l.(*ast.IndexExpr); ok {
+					if id, ok := ix.X.(*ast.Ident); ok && info.Uses[id] == param {
+						isWrite = true
+					}
+				}
+			}
+		case *ast.ExprStmt:
+			if call, ok := s.X.(*ast.CallExpr); ok {
+				if id, ok := call.Fun.(*ast.Ident); ok && id.Name == "copy" && len(call.Args) == 2 {
+					isWrite = true
+				}
+			}
+		}
+		if !isWrite {
+			continue
+		}
+		nWrite++
+		path := g.Path(flow.Search{From: []*flow.Node{y}, Goal: isGiveUp})
+		good := path == nil || guarded(y)
+		at := ""
+		if path != nil {
+			at = c.pos(path[len(path)-1].Stmt)
+		}
+		c.R.Check(good, rule, fmt.Sprintf("minify.Number/in-place write %s#%d", stmtText(y.Stmt), nWrite), c.pos(y.Stmt), "no `return num` reachable afterwards, or behind a MinInt / MaxInt guard",
+			"after this write the function can still give up with `return num` at "+at+" and no guard on the exponent precedes the write: the caller receives the input with partly rounded digits")
+	}
+	c.R.Floor(rule, "moves of the parsed exponent", nMove, 3)
+	c.R.Floor(rule, "in-place writes", nWrite, 10)
+}
+
+func stmtText(s ast.Stmt) string {
+	switch x := s.(type) {
+	case *ast.IncDecStmt:
+		return nospace(str(x.X)) + x.Tok.String()
+	case *ast.AssignStmt:
+		var l, r []string
+		for _, e := range x.Lhs {
+			l = append(l, nospace(str(e)))
+		}
+		for _, e := range x.Rhs {
+			r = append(r, nospace(str(e)))
+		}
+		return strings.Join(l, ",") + x.Tok.String() + strings.Join(r, ",")
+	case *ast.ExprStmt:
+		return nospace(str(x.X))
+	}
+	return fmt.Sprintf("%T", s)
 }
